@@ -6,6 +6,7 @@ import (
 	"go/constant"
 	"go/token"
 	"go/types"
+	"golang.org/x/tools/go/packages"
 	"sort"
 	"strings"
 
@@ -625,3 +626,276 @@ func r047(c *Ctx, r *R) {
 	r.Check(refAt >= 0 && retAt > refAt, "cidsFromMetaPin:reference", fd.Pos(), "the cluster-DAG CID (the meta pin's reference) is added to the list before the successful return", "cidsFromMetaPin's successful result no longer contains the meta pin's reference (the cluster-DAG entry is never unpinned)")
 	r.Check(linksAt >= 0 && retAt > linksAt, "cidsFromMetaPin:links", fd.Pos(), "every link of the cluster DAG (the shard entries) is added to the list before the successful return", "cidsFromMetaPin's successful result no longer contains the cluster DAG's links (shard entries are never unpinned)")
 }
+
+func init() {
+	register(&Rule{ID: "R15.9", Props: []string{"C15", "C16"}, Floor: 100, Title: "save and load pair each JSON setting with the configuration field of the same setting (no crossed fields: pin_timeout is not written from UnpinTimeout)", Run: r159})
+}
+
+// c15Pairs: JSON field -> configuration field where the names differ on
+// purpose (confirmed by reading).
+var c15Pairs = map[string]string{
+	".Config.ConnectionManager":                 "ConnMgr",  // cluster: connection_manager section <-> ConnMgr struct
+	"api/ipfsproxy.Config.NodeMultiaddress":     "NodeAddr", // node_multiaddress <-> NodeAddr
+	"ipfsconn/ipfshttp.Config.NodeMultiaddress": "NodeAddr", // node_multiaddress <-> NodeAddr
+}
+
+func r159(c *Ctx, r *R) {
+	ccs := c.componentConfigs(r)
+	for _, cc := range ccs {
+		J := jsonStructOf(c, cc)
+		if J == nil {
+			continue
+		}
+		label := cc.rel + "." + cc.name
+		saveRoot, _ := c.P.FuncDecl(cc.rel, cc.name+".ToJSON")
+		loadRoot, _ := c.P.FuncDecl(cc.rel, cc.name+".LoadJSON")
+		if saveRoot == nil || loadRoot == nil {
+			continue
+		}
+		pkg := cc.pkg
+		// fieldsOf: which fields of the JSON struct / the config struct an
+		// expression mentions
+		isNamed := func(t types.Type, want *types.Named) bool {
+			if p, ok := t.(*types.Pointer); ok {
+				t = p.Elem()
+			}
+			nt, ok := t.(*types.Named)
+			return ok && nt == want
+		}
+		isJT := func(t types.Type) bool {
+			if isNamed(t, J) {
+				return true
+			}
+			if p, ok := t.(*types.Pointer); ok {
+				t = p.Elem()
+			}
+			nt, ok := t.(*types.Named)
+			if !ok || nt.Obj().Pkg() != pkg.Types || nt == cc.t {
+				return false
+			}
+			_, isS := nt.Underlying().(*types.Struct)
+			return isS && strings.HasPrefix(strings.ToLower(nt.Obj().Name()), "json")
+		}
+		mention := func(e ast.Node, wantJSON bool) []string {
+			var out []string
+			ast.Inspect(e, func(n ast.Node) bool {
+				se, ok := n.(*ast.SelectorExpr)
+				if !ok {
+					return true
+				}
+				// walk the selector chain down to its root: every field
+				// on a chain rooted at a JSON (or configuration) value
+				// counts, also fields of nested structs of other packages
+				// (cfg.RaftConfig.HeartbeatTimeout)
+				var names []string
+				var x ast.Expr = se
+				rooted := false
+				for {
+					cur, ok := ast.Unparen(x).(*ast.SelectorExpr)
+					if !ok {
+						break
+					}
+					sel := pkg.TypesInfo.Selections[cur]
+					if sel == nil || sel.Kind() != types.FieldVal {
+						break
+					}
+					names = append(names, sel.Obj().Name())
+					rt := sel.Recv()
+					if wantJSON && isJT(rt) || !wantJSON && (isNamed(rt, cc.t) || cfgNested(rt, cc, pkg)) {
+						rooted = true
+					}
+					x = cur.X
+				}
+				if rooted {
+					out = append(out, names...)
+				}
+				return true
+			})
+			return out
+		}
+		norm := func(s string) string { return strings.ToLower(strings.ReplaceAll(s, "_", "")) }
+		check := func(side, jf string, cfs []string, pos token.Pos) {
+			if len(cfs) == 0 {
+				return
+			}
+			key := label + ":" + side + ":" + jf
+			for _, g := range cfs {
+				if norm(g) == norm(jf) || c15Pairs[label+"."+jf] == g {
+					r.OK(key, pos, "paired with the configuration field %s", g)
+					return
+				}
+			}
+			r.Bad(key, pos, "on the %s side the JSON setting %s is paired with configuration field(s) %v, none of which is the same setting: the value of another setting is written in its place", side, jf, cfs)
+		}
+		for _, d := range funcsCalledFrom(c.P, pkg, saveRoot) {
+			ast.Inspect(d.Body, func(n ast.Node) bool {
+				switch x := n.(type) {
+				case *ast.CompositeLit:
+					if tv, ok := pkg.TypesInfo.Types[x]; ok && isJT(tv.Type) {
+						for _, el := range x.Elts {
+							if kv, ok := el.(*ast.KeyValueExpr); ok {
+								if id, ok := kv.Key.(*ast.Ident); ok {
+									check("save", id.Name, mention(kv.Value, false), kv.Pos())
+								}
+							}
+						}
+					}
+				case *ast.AssignStmt:
+					if len(x.Lhs) == 1 && len(x.Rhs) == 1 {
+						if js := mention(x.Lhs[0], true); len(js) == 1 {
+							if _, isSel := x.Lhs[0].(*ast.SelectorExpr); isSel {
+								check("save", js[0], mention(x.Rhs[0], false), x.Pos())
+							}
+						}
+					}
+				}
+				return true
+			})
+		}
+		for _, d := range funcsCalledFrom(c.P, pkg, loadRoot) {
+			ast.Inspect(d.Body, func(n ast.Node) bool {
+				switch x := n.(type) {
+				case *ast.AssignStmt:
+					if len(x.Lhs) == 1 && len(x.Rhs) == 1 {
+						if cs := mention(x.Lhs[0], false); len(cs) >= 1 {
+							if _, isSel := x.Lhs[0].(*ast.SelectorExpr); isSel {
+								if js := mention(x.Rhs[0], true); len(js) > 0 {
+									// load: the JSON fields feeding configuration field cs[last]
+									cf := cs[len(cs)-1]
+									ok := false
+									for _, j := range js {
+										if norm(j) == norm(cf) || c15Pairs[label+"."+j] == cf {
+											ok = true
+										}
+									}
+									for _, c2 := range cs {
+										for _, j := range js {
+											if norm(j) == norm(c2) || c15Pairs[label+"."+j] == c2 {
+												ok = true
+											}
+										}
+									}
+									key := label + ":load:" + cf
+									if ok {
+										r.OK(key, x.Pos(), "loaded from the JSON field of the same setting")
+									} else {
+										r.Bad(key, x.Pos(), "on the load side the configuration field %s is assigned from JSON field(s) %v, none of which is the same setting", cf, js)
+									}
+								}
+							}
+						}
+					}
+				case *ast.CallExpr:
+					// config.SetIfNotDefault(jcfg.F, &cfg.G) and
+					// &config.DurationOpt{Duration: jcfg.F, Dst: &cfg.G}
+					if strings.HasSuffix(funcFullName(pkg, x), "config.SetIfNotDefault") && len(x.Args) == 2 {
+						js, cs := mention(x.Args[0], true), mention(x.Args[1], false)
+						if len(js) > 0 && len(cs) > 0 {
+							check("load", js[0], cs, x.Pos())
+						}
+					}
+				case *ast.CompositeLit:
+					if tv, ok := pkg.TypesInfo.Types[x]; ok && strings.HasSuffix(tv.Type.String(), "config.DurationOpt") {
+						var js, cs []string
+						for _, el := range x.Elts {
+							if kv, ok := el.(*ast.KeyValueExpr); ok {
+								if id, ok := kv.Key.(*ast.Ident); ok {
+									switch id.Name {
+									case "Duration":
+										js = mention(kv.Value, true)
+									case "Dst":
+										cs = mention(kv.Value, false)
+									}
+								}
+							}
+						}
+						if len(js) > 0 && len(cs) > 0 {
+							check("load", js[0], cs, x.Pos())
+						}
+					}
+				}
+				return true
+			})
+		}
+	}
+}
+
+// cfgNested: t is a struct type nested in the component's configuration
+// (e.g. Batching inside crdt.Config).
+func cfgNested(t types.Type, cc compCfg, pkg *packages.Package) bool {
+	if p, ok := t.(*types.Pointer); ok {
+		t = p.Elem()
+	}
+	nt, ok := t.(*types.Named)
+	if !ok || nt.Obj().Pkg() != pkg.Types {
+		return false
+	}
+	st, ok := cc.t.Underlying().(*types.Struct)
+	if !ok {
+		return false
+	}
+	for i := 0; i < st.NumFields(); i++ {
+		ft := st.Field(i).Type()
+		if p, ok := ft.(*types.Pointer); ok {
+			ft = p.Elem()
+		}
+		if ft == types.Type(nt) {
+			return true
+		}
+	}
+	return false
+}
+
+func init() {
+	register(&Rule{ID: "R07.8", Props: []string{"C12", "C11", "C07", "C08"}, Floor: 55, Title: "type agreement across the string-dispatched RPC boundary: at every gorpc call site the argument and the reply have exactly the types the endpoint declares (gorpc refuses or mis-decodes anything else at run time)", Run: r078})
+}
+
+// r078: gorpc dispatches on strings, so the compiler never compares the
+// argument passed as interface{} with the endpoint's parameter. A local
+// call with a value where the endpoint takes a pointer (or another type) is
+// refused at run time ("is being called with the wrong arg type") and the
+// operation silently does not happen; a remote call is mis-decoded.
+func r078(c *Ctx, r *R) {
+	methods := c.rpcMethods()
+	operand := func(v ssa.Value) (types.Type, bool) {
+		mi, ok := v.(*ssa.MakeInterface)
+		if !ok {
+			return nil, false // passed through as interface{} (wrappers): decided at the wrapper's callers
+		}
+		return mi.X.Type(), true
+	}
+	for _, s := range c.RPC {
+		if !s.Resolved {
+			continue
+		}
+		pos, ok := rpcArgPos[s.Kind]
+		if !ok {
+			continue
+		}
+		args := callArgs(s.Call.Common())
+		ai, ri := pos[1]+2, pos[1]+3
+		if ri >= len(args) {
+			continue
+		}
+		for _, t := range s.Targets {
+			m := methods[t.Svc+"."+t.Method]
+			if m == nil {
+				continue // reported by R07.0
+			}
+			sig := m.Type().(*types.Signature)
+			in, out := sig.Params().At(1).Type(), sig.Params().At(2).Type()
+			key := fmt.Sprintf("%s.%s@%s", t.Svc, t.Method, s.Fn.Name())
+			if at, ok := operand(args[ai]); ok {
+				r.Check(types.Identical(at, in), "arg:"+key, s.Call.Pos(), "argument type "+types.TypeString(at, shortQual)+" is the endpoint's", fmt.Sprintf("%s.%s is called with an argument of type %s where the endpoint takes %s: gorpc refuses the call at run time (or decodes garbage remotely) and the operation does not happen", t.Svc, t.Method, types.TypeString(at, shortQual), types.TypeString(in, shortQual)))
+			}
+			if strings.HasPrefix(s.Kind, "Multi") {
+				continue // replies are a []interface{} built by rpcutil helpers
+			}
+			if rt, ok := operand(args[ri]); ok {
+				r.Check(types.Identical(rt, out), "reply:"+key, s.Call.Pos(), "reply type "+types.TypeString(rt, shortQual)+" is the endpoint's", fmt.Sprintf("%s.%s is called with a reply of type %s where the endpoint writes %s", t.Svc, t.Method, types.TypeString(rt, shortQual), types.TypeString(out, shortQual)))
+			}
+		}
+	}
+}
+
+func shortQual(p *types.Package) string { return p.Name() }
